@@ -10,7 +10,7 @@ from mc import core, ghost
 PROPERTY = 'C06'
 LEVEL = 'model_checking'
 RULE = ('program = (handler shape of e0, e1, e2[, e3]) x (one or two root events in flight) x (task stepping order fifo/lifo) '
-        'x optional timeout; callers: call by object, wait by name, wait by object, two calls in sequence, call then yield, '
+        'x optional timeout (0, 1, 3 iterations, also 1/2 and 5/2); callers: call by object, wait by name, wait by object, two calls in sequence, call then yield, '
         'yield then call; callees: return v/None, raise, generators yielding 1-2 times, raising before/after first yield, '
         'two handlers (one or both of them generators suspended at the same time); each program executed once under the real run(); non-trivial = every program (each suspends at least '
         'one caller); distinct = distinct program')
@@ -113,7 +113,7 @@ def programs(tier):
                             for l3 in depth_leafs:
                                 yield (c0, c1, c2, l3), nroots, rev, None
         # time-outs: caller with timeout t against callee lasting k iterations
-        touts = (0, 1, 3) if tier != 'quick' else (0, 1, 3)
+        touts = (0, 1, 3, 0.5, 2.5)      # (a time-out need not be a whole number of iterations)
         for t in touts:
             for c0 in ('call', 'waitn', 'waito'):
                 for s in SLOW + ['R', 'GX1']:
@@ -232,7 +232,7 @@ def judge(program, w, res):
                 elapsed = iters_at[j] - iters_at[i]
                 tmo = ghost.World.pick(timeout, w.events[eid])
                 if elapsed < tmo:
-                    bad.append(('timeout-early', 'TimeoutError after %d loop iterations, timeout=%d' % (elapsed, tmo)))
+                    bad.append(('timeout-early', 'TimeoutError after %d loop iterations, timeout=%r' % (elapsed, tmo)))
             continue
         if never:
             bad.append(('resume-never', 'wait for an event that never happens returned %r' % (got,)))
@@ -337,7 +337,7 @@ def run(tier, seed, workers):
     if st.executions != total:
         st.selfcheck_errors.append('enumeration: %d of %d' % (st.executions, total))
     st.states = len(st.outcomes)
-    st.bounds = {'programs': total, 'call_depth': 2 if tier == 'quick' else 3, 'roots_in_flight': [1, 2, 12, 40] if tier == 'quick' else [1, 2, 12, 40, 150], 'timeouts': [0, 1, 3],
+    st.bounds = {'programs': total, 'call_depth': 2 if tier == 'quick' else 3, 'roots_in_flight': [1, 2, 12, 40] if tier == 'quick' else [1, 2, 12, 40, 150], 'timeouts': [0, 0.5, 1, 2.5, 3],
                  'callee_durations': [0, 1, 2, 3, 4], 'task_orders': 2}
     for c in ('executions_resumed_with_error_flag', 'executions_resumed_by_timeout', 'programs_with_two_callers_in_flight'):
         if not st.counters[c]:
